@@ -40,6 +40,12 @@ Definition C15_mapping_exact_statement : Prop :=
   forall t t' m, unnamed t -> auto_name t = Some (t', m) ->
     forall nm q, In (nm, q) m <-> name_at t' q = Some nm.
 
+(* ... and whatever names the tree carried before (a tree named earlier and edited since): every
+   entry of the mapping is the path of an element that now carries that name, and names are distinct *)
+Definition C15_mapping_sound_any_history_statement : Prop :=
+  forall t t' m, auto_name t = Some (t', m) ->
+    NoDup (map fst m) /\ forall nm q, In (nm, q) m -> name_at t' q = Some nm.
+
 (* the successor function on names never repeats, for any number of steps *)
 Definition C15_next_name_never_repeats_statement : Prop :=
   forall n l st, gen_names gen_letters None n = Some (l, st) -> NoDup l /\ length l = n.
@@ -67,10 +73,17 @@ Proof.
   exact (proj1 (proj2 (auto_name_with_spec gen_letters letters_nonempty namer_handles t t' m H)) Hu).
 Qed.
 
+Theorem C15_mapping_sound_any_history : C15_mapping_sound_any_history_statement.
+Proof.
+  intros t t' m H.
+  destruct (auto_name_with_spec gen_letters letters_nonempty namer_handles t t' m H) as [Hnd [_ [_ Hs]]].
+  split; assumption.
+Qed.
+
 Theorem C15_named_exactly_operands : C15_named_exactly_operands_statement.
 Proof.
   intros t t' m Hu H q.
-  destruct (auto_name_with_spec gen_letters letters_nonempty namer_handles t t' m H) as [_ [Hex Hp]].
+  destruct (auto_name_with_spec gen_letters letters_nonempty namer_handles t t' m H) as [_ [Hex [Hp _]]].
   specialize (Hex Hu). specialize (Hp q).
   assert (Hin : (exists nm, name_at t' q = Some nm) <-> In q (map snd m)).
   { split.
@@ -113,3 +126,4 @@ Print Assumptions C15_names_distinct.
 Print Assumptions C15_named_exactly_operands.
 Print Assumptions C15_mapping_exact.
 Print Assumptions C15_next_name_never_repeats.
+Print Assumptions C15_mapping_sound_any_history.
